@@ -66,11 +66,12 @@ fn main() {
 
     // quick: N <= 3 over the 48-symbol alphabet; thorough: N <= 3 over the 240-symbol alphabet and N <= 4 over the 48-symbol one
     use vh::gen::DiffPreset as DP;
-    // (the last two: other slider velocities and tick rates — how many objects a slider becomes depends on them)
+    // (other slider velocities and tick rates — how many objects a slider becomes depends on them; other OD / CS values —
+    // the key count of a mania convert without key mod is chosen from them and the share of sliders and spinners)
     let variants: Vec<(u32, Timing, &str, DP)> = if ctx.quick() {
-        vec![(14, Timing::T0, "v14", DP::D0), (7, Timing::T1, "v7-velocity", DP::D0), (14, Timing::T7, "v14-kiai-velocity-toggles", DP::D0), (14, Timing::T0, "v14-fast-sliders-8-ticks", DP::D2), (14, Timing::T0, "v14-2-ticks", DP::D3)]
+        vec![(14, Timing::T0, "v14", DP::D0), (7, Timing::T1, "v7-velocity", DP::D0), (14, Timing::T7, "v14-kiai-velocity-toggles", DP::D0), (14, Timing::T0, "v14-fast-sliders-8-ticks", DP::D2), (14, Timing::T0, "v14-2-ticks", DP::D3), (14, Timing::T0, "v14-all-zero-difficulty", DP::D1), (14, Timing::T0, "v14-od3-cs4", DP::D7), (14, Timing::T0, "v14-od5-cs5", DP::D6), (14, Timing::T0, "v14-od8-cs3", DP::D5)]
     } else {
-        vec![(14, Timing::T0, "v14", DP::D0), (7, Timing::T1, "v7-velocity", DP::D0), (14, Timing::T7, "v14-kiai-velocity-toggles", DP::D0), (14, Timing::T6, "v14-two-timing", DP::D0), (5, Timing::T3, "v5-kiai", DP::D0), (14, Timing::T0, "v14-fast-sliders-8-ticks", DP::D2), (14, Timing::T0, "v14-2-ticks", DP::D3), (14, Timing::T1, "v14-slow-sliders", DP::D1)]
+        vec![(14, Timing::T0, "v14", DP::D0), (7, Timing::T1, "v7-velocity", DP::D0), (14, Timing::T7, "v14-kiai-velocity-toggles", DP::D0), (14, Timing::T6, "v14-two-timing", DP::D0), (5, Timing::T3, "v5-kiai", DP::D0), (14, Timing::T0, "v14-fast-sliders-8-ticks", DP::D2), (14, Timing::T0, "v14-2-ticks", DP::D3), (14, Timing::T1, "v14-slow-sliders", DP::D1), (14, Timing::T0, "v14-od3-cs4", DP::D7), (14, Timing::T0, "v14-od5-cs5", DP::D6), (14, Timing::T0, "v14-od8-cs3", DP::D5)]
     };
     let shapes: Vec<(u32, bool)> = if ctx.quick() { vec![(3, false)] } else { vec![(3, true), (4, false)] };
     for (version, timing, tag, preset) in variants {
